@@ -816,7 +816,7 @@ func runC11(p *kit.Program, r *kit.Report) {
 	r.Count("message_literals", len(cx.lits))
 	r.Require(len(cx.floodFns) >= 1, "floor: no forwarding loop (SendToPeer over GetPeerIDs with sender/seen-by parameters) found in internal/flood")
 	r.Require(len(cx.handlers) >= 5, "floor: %d receive entry points found, expected at least 5 (route advertise/withdraw, node info, sleep, wake)", len(cx.handlers))
-	r.Require(len(cx.lits) >= 8, "floor: %d flooded message literals found, expected at least 8", len(cx.lits))
+	r.Require(len(cx.lits) >= 4, "floor: %d flooded message literals found, expected at least 4", len(cx.lits))
 	if len(r.Floors) > 0 {
 		return
 	}
